@@ -26,7 +26,7 @@ Check == /\ \A so \in SeqOpts : SeqRoundTrip(d, so)
                                 x |-> Join(RenderSeq(EncodeSeqRoot(DecodeSeq(d, v[1]), v[1]), EOs(v[1], v[2])))] : v \in Variants})])))
 N(l) == NM("", l)
 cOrder == [names |-> {N(<<"a">>), N(<<"b">>), NM("n", <<"b">>)}, anames |-> {}, avals |-> {}, texts |-> {<<"t">>}, maxattrs |-> 0, extras |-> {}]
-cAttrs == [names |-> {N(<<"a">>)}, anames |-> {N(<<"x">>), N(<<"y", "-", "z">>), NM("xmlns", <<"n">>), NM("n", <<"x">>)}, avals |-> {<<"1">>, <<"<", "&">>},
+cAttrs == [names |-> {N(<<"a">>)}, anames |-> {N(<<"x">>), N(<<"y", "-", "z">>), NM("xmlns", <<"n">>), NM("n", <<"x">>)}, avals |-> {<<"1">>, <<"<", "&">>, <<>>},
            texts |-> {}, maxattrs |-> 3, extras |-> {}]
 cExtras == [names |-> {N(<<"a">>), N(<<"b", "-", "c">>)}, anames |-> {N(<<"x">>)}, avals |-> {<<"1">>}, texts |-> {<<" ", "t", " ">>, <<"\n">>, <<"<", "&">>},
             maxattrs |-> 1, extras |-> {XC(<<"c", "&", "<", "'">>), XD(<<"D", "O", "C", "T", "Y", "P", "E", " ", "a">>), XP(<<"p", "i">>, <<"x", "=", "1">>)}]
